@@ -12,7 +12,7 @@ git -C $WT apply "$diff" || { echo "patch does not apply"; exit 2; }
 pk=$(git -C $WT diff --name-only | xargs -n1 dirname | sort -u | sed 's#^#./#' | tr '\n' ' ')
 echo "== build + tests of touched packages: $pk"
 (cd $WT && go build ./... 2>&1 | tail -3 && go test -count=1 $pk 2>&1 | tail -4); rc=${PIPESTATUS[0]}
-id=$prop-$k; mkdir -p /verif/refactors/$id
+id=$prop-$((k+${RF_OFFSET:-0})); mkdir -p /verif/refactors/$id
 cp "$diff" /verif/refactors/$id/patch.diff; cp "$meta" /verif/refactors/$id/agent_meta.json 2>/dev/null
 VD=/tmp/wt/rerun_verif; mkdir -p $VD/evidence/replay $VD/checker; cp /verif/known_findings.json $VD/; cp /verif/checker/param_names.json $VD/checker/
 res=""
